@@ -3007,6 +3007,23 @@ def r14_11(ctx):
                     "the available space: an offset close to usize::MAX overflows (panic with overflow checks, a wrapped index without) instead of answering the empty slice", body=b, bb=bad[0][0], path=bad[0][1])
         else:
             ctx.ok((nm, 'offset bounded first'), sample=dict(fn=f'RingBuffer::{nm}', first='offset <= window()/len()', then='index arithmetic'))
+        # the bound is the quantity the offset is then subtracted from
+        for bi, bl in enumerate(b.blocks):
+            if bl['cl']:
+                continue
+            for si, s in enumerate(bl['s']):
+                if not (s[0] == 'a' and s[2][0] == 'bin' and s[2][1] in ('Sub', 'SubWithOverflow')):
+                    continue
+                m, sub = [strip(simplify(F.origin.operand(b, o, bi, si))) for o in s[2][2:4]]
+                if 'A:2' not in leafs(sub) or leafs(sub) != {'A:2'}:
+                    continue
+                cover = lambda f, m=m, sub=sub: f[0] == 'rel' and ((f[1] in ('Le', 'Lt') and _same_expr(strip(simplify(f[2])), sub) and _same_expr(strip(simplify(f[3])), m)) or
+                                                                    (f[1] in ('Ge', 'Gt') and _same_expr(strip(simplify(f[3])), sub) and _same_expr(strip(simplify(f[2])), m)))
+                if unguarded(F, b, [bi], cover):
+                    ctx.bad(f"RingBuffer::{nm}|offset-subtracted-from-untested-quantity", f"RingBuffer::{nm} computes `{show(m)[:40]} - offset` although the offset was not tested against that quantity: "
+                            "for an offset between it and the bound that was tested the subtraction underflows (panic, or in release builds queued elements are handed out as free space)", body=b, bb=bi)
+                else:
+                    ctx.ok((nm, 'offset <= minuend', bi), sample=dict(fn=f'RingBuffer::{nm}', sub=f"{show(m)[:40]} - offset", behind='offset <= the same quantity'))
 
 
 @rule('R02.15', ['C02', 'C03', 'C13'], floor=1, clause='the zero-window-probe timer does not outlive the data it probes for: in process(), once the transmit buffer is found empty, every continuation either finds that the timer is not the probe timer or replaces it (an expired probe timer with nothing to probe makes dispatch transmit at every call: in FIN-WAIT-2 Interface::poll would never return)')
@@ -3257,3 +3274,164 @@ def r20_8(ctx):
             d = sorted(f"{x[1]}..{x[2]}" for x in a ^ e)
             ctx.bad(f"iphc::Repr::buffer_len|{which}-ranges-differ-from-{setter}", f"Repr::buffer_len() and {setter}() decide the compression of the {which} address on different octet ranges "
                     f"({', '.join(d)}): for some addresses the declared header length differs from the octets emitted - stray or missing octets between the IPHC header and what follows", body=bl_)
+
+
+@rule('R14.12', ['C14', 'C09'], floor=3, clause='a packet buffer hands out a payload of exactly the recorded size: dequeue() and peek() ask the payload ring for metadata.size octets, and the callback of dequeue_with() is given payload[..metadata.size], not the whole contiguous run of the ring (which continues into the following packets)')
+def r14_12(ctx):
+    F = ctx.F
+    PB = 'storage::packet_buffer::PacketBuffer'
+    n = 0
+    sized = lambda o: any(l.endswith('PacketMetadata.size') or l.endswith('.size') or 'metadata__size' in l for l in leafs(o))
+    for nm, callee, argi in (('dequeue', '::dequeue_many', 1), ('peek', '::get_allocated', 2)):
+        b = ctx.method(PB, nm)
+        sites = [x for x in b.calls() if (b.callee_name(x[1]) or '').endswith(callee) and
+                 any(l.endswith('.payload_ring') for l in leafs(strip(simplify(F.origin.operand(b, x[2][0], x[0], len(b.blocks[x[0]]['s']))))))]
+        ctx.need(sites, f"payload_ring{callee} in PacketBuffer::{nm}")
+        for x in sites:
+            n += 1
+            o = strip(simplify(F.origin.operand(b, x[2][argi], x[0], len(b.blocks[x[0]]['s']))))
+            if sized(o) and const_of(o) is None:
+                ctx.ok((nm, 'exact size'), sample=dict(fn=f'PacketBuffer::{nm}', asks_for=show(o)[:60]))
+            else:
+                ctx.bad(f"PacketBuffer::{nm}|payload-not-sized-by-metadata", f"PacketBuffer::{nm} takes `{show(o)[:60]}` octets from the payload ring instead of the size recorded for the packet", body=b, bb=x[0])
+    dw = ctx.method(PB, 'dequeue_with')
+    fam = list(F.closures_of(dw.key))
+    for c in list(fam):
+        fam += [x for x in F.closures_of(c.key) if x not in fam]
+    hit = 0
+    for b in fam:
+        for x in b.calls():
+            c = x[1]
+            if not (isinstance(c, dict) and (c.get('fn') or '').endswith('FnOnce::call_once')):
+                continue
+            args = strip(simplify(F.origin.operand(b, x[2][1], x[0], len(b.blocks[x[0]]['s'])))) if len(x[2]) > 1 else None
+            if args is None or args[0] != 'agg' or len(args[2]) != 2:
+                continue
+            hit += 1
+            n += 1
+            p = strip(args[2][1])
+            while p[0] in ('ref', 'deref'):
+                p = strip(p[1])
+            okp = False
+            if is_call(p, '::index_mut') or is_call(p, '::index'):
+                rb = range_bounds(F, p[2][1])
+                okp = rb is not None and rb[0] in ('RangeTo', 'Range') and sized(strip(simplify(rb[2]))) and (rb[1] is None or const_of(rb[1]) == 0)
+            if okp:
+                ctx.ok(('dequeue_with', 'exact slice'), sample=dict(fn='PacketBuffer::dequeue_with', callback_gets='payload[..metadata.size]'))
+            else:
+                ctx.bad("PacketBuffer::dequeue_with|callback-sees-following-packets", f"the callback of PacketBuffer::dequeue_with is handed `{show(p)[:60]}`: the contiguous run of the payload ring, "
+                        "which continues into the packets queued behind the head packet, instead of the head packet's own payload", body=b, bb=x[0])
+    ctx.need(hit >= 1, "the user callback of PacketBuffer::dequeue_with")
+
+
+@rule('R12.11', ['C12', 'C10'], floor=1, clause='every fragmented IPv4 datagram gets its own identification: next_ipv4_frag_ident advances the counter by one, wrapping (a counter that sticks at 0xffff gives back-to-back datagrams the same reassembly key, and interleaved fragments are mixed by the receiver)')
+def r12_11(ctx):
+    F = ctx.F
+    II = 'iface::interface::InterfaceInner'
+    cands = [b for k, b in F.bodies.items() if k.endswith('::next_ipv4_frag_ident') and '::test' not in k]
+    ctx.need(cands, "next_ipv4_frag_ident")
+    b = cands[0]
+    mw = must_write_fields(F, b, II)
+    if 'ipv4_id' not in mw:
+        ctx.bad("next_ipv4_frag_ident|not-advanced", "next_ipv4_frag_ident hands out the identification without advancing the counter on every path", body=b)
+        return
+    bi, si = mw['ipv4_id'][0]
+    o = strip(simplify(F.origin.rvalue(b, b.blocks[bi]['s'][si][2], bi, si, 0, None))) if si != 'T' else strip(simplify(F.origin.call_node(b, b.blocks[bi]['t'], bi, 0, None)))
+    okv = (o[0] == 'call' and o[1].rsplit('::', 1)[-1] in ('wrapping_add', 'add') and any(const_of(a) == 1 for a in o[2]) and any(l.endswith('.ipv4_id') for l in leafs(o))) or \
+        (o[0] == 'bin' and o[1] == 'Add' and 1 in (const_of(o[2]), const_of(o[3])) and any(l.endswith('.ipv4_id') for l in leafs(o)))
+    if okv:
+        ctx.ok(('ipv4 ident', 'advances'), sample=dict(fn='next_ipv4_frag_ident', stores='ipv4_id.wrapping_add(1)'))
+    else:
+        ctx.bad("next_ipv4_frag_ident|ident-step", f"next_ipv4_frag_ident stores `{show(o)[:60]}` into the identification counter (expected ipv4_id + 1, wrapping): once the counter stops moving, "
+                "all fragmented datagrams share one reassembly key", body=b, bb=bi)
+
+
+@rule('R20.9', ['C20', 'C11', 'C06'], floor=2, clause='6LoWPAN IPHC: the destination address is rebuilt with the destination context identifier and the source address with the source context identifier - dst_addr() never reads src_context_id() and src_addr() never reads dst_context_id()')
+def r20_9(ctx):
+    F = ctx.F
+    for fn, own, other in (('dst_addr', 'dst_context_id', 'src_context_id'), ('src_addr', 'src_context_id', 'dst_context_id')):
+        ks = [k for k in F.bodies if k.startswith('wire::sixlowpan::iphc::Packet') and k.endswith('::' + fn)]
+        ctx.need(ks, f"iphc::Packet::{fn}")
+        b = F.bodies[ks[0]]
+        names = [(b.callee_name(x[1]) or '').rsplit('::', 1)[-1] for x in b.calls()]
+        ctx.need(own in names, f"{own}() in iphc::Packet::{fn}")
+        wrong = [x for x in b.calls() if (b.callee_name(x[1]) or '').endswith('::' + other)]
+        if wrong:
+            ctx.bad(f"iphc::Packet::{fn}|uses-{other}", f"iphc::Packet::{fn}() takes a context identifier from {other}(): with CID=1 and different source / destination contexts the address is rebuilt "
+                    "under the wrong prefix - a datagram for a foreign address can come out as one of ours and be delivered", body=b, bb=wrong[0][0])
+        else:
+            ctx.ok(('iphc', fn, own), sample=dict(fn=f'iphc::Packet::{fn}', context_from=own + '()'))
+
+
+@rule('R15.10', ['C15', 'C04'], floor=1, clause='add_then_remove_front refuses a range only when add() itself refuses it: the function has no refusal of its own (a full tracker still accepts every range that merges with what it holds)')
+def r15_10(ctx):
+    F = ctx.F
+    A = 'storage::assembler::Assembler'
+    b = ctx.method(A, 'add_then_remove_front')
+    adds = [x[0] for x in b.calls() if (b.callee_name(x[1]) or '').endswith('Assembler::add')]
+    ctx.need(adds, "add() call in add_then_remove_front")
+    own = [bi for bi, si, var in agg_sites(b, 'std::result::Result', ['Err'])]
+    own += [bi for bi, si, var in agg_sites(b, 'storage::assembler::TooManyHolesError')]
+    if own:
+        ctx.bad("add_then_remove_front|own-refusal", "add_then_remove_front answers Err without having asked add(): ranges that add() would merge into the ranges already tracked (needing no free slot), "
+                "or an offset-0 range, are refused on a full tracker", body=b, bb=own[0])
+    else:
+        ctx.ok(('add_then_remove_front', 'no refusal of its own'), sample=dict(fn='Assembler::add_then_remove_front', err_only_from='add(..)?'))
+
+
+@rule('R19.7', ['C19', 'C03'], floor=2, clause='the DNS socket indexes its server list with a query\'s server index only behind `server_idx < servers.len()`: when the last server has timed out the query fails instead of reading past the list')
+def r19_7(ctx):
+    F = ctx.F
+    b = ctx.method('socket::dns::Socket', 'dispatch')
+    sites = []
+    for bi, bl in enumerate(b.blocks):
+        t = bl['t']
+        if bl['cl'] or t[0] != 'assert' or t[3].get('k') != 'bounds':
+            continue
+        ix = strip(simplify(F.origin.operand(b, t[3]['index'], bi, len(bl['s']))))
+        if any(l.endswith('.server_idx') for l in leafs(ix)):
+            sites.append(bi)
+    ctx.need(len(sites) >= 2, f"servers[pq.server_idx] in dns dispatch (found {len(sites)})")
+
+    def inb(f):
+        if f[0] != 'rel' or f[1] != 'Lt':
+            return False
+        r = strip(f[3])
+        return any(l.endswith('.server_idx') for l in leafs(f[2])) and (r[0] == 'len' or is_call(r, '::len'))
+    for s_ in sites:
+        bad = unguarded(F, b, [s_], inb)
+        if bad:
+            ctx.bad("dns::dispatch|server-index-unchecked", "dns dispatch indexes the server list with pq.server_idx without `server_idx < servers.len()` on the way: once the last configured server "
+                    "has timed out (10 s without an answer) the index equals the length and the poll panics instead of failing the query", body=b, bb=s_, path=bad[0][1])
+        else:
+            ctx.ok(('dns::dispatch', 'server index', s_), sample=dict(index='servers[pq.server_idx]', behind='server_idx < servers.len()'))
+
+
+@rule('R20.10', ['C20', 'C06'], floor=2, clause='6LoWPAN: wherever address decompression rebuilds an interface identifier from 16 bits (octets 14..16 from the in-line value or a short link-layer address), it also puts back the 00ff:fe00 filler the compressor required in octets 11..13 before eliding them')
+def r20_10(ctx):
+    F = ctx.F
+    ks = [k for k in F.bodies if k.endswith('sixlowpan::UnresolvedAddress::<\'a>::resolve') or (k.endswith('::resolve') and 'UnresolvedAddress' in k and '{closure' not in k)]
+    ctx.need(ks, "UnresolvedAddress::resolve")
+    b = F.bodies[ks[0]]
+    w14, w11 = [], []
+    for x in b.calls():
+        cn = b.callee_name(x[1]) or ''
+        if not re.search(r'IndexMut<.*>::index_mut$', cn) or len(x[2]) != 2:
+            continue
+        rb = range_bounds(F, simplify(F.origin.operand(b, x[2][1], x[0], len(b.blocks[x[0]]['s']))))
+        if rb is None:
+            continue
+        if rb[0] == 'RangeFrom' and const_of(rb[1]) == 14:
+            w14.append(x[0])
+        if rb[0] == 'Range' and const_of(rb[1]) == 11 and const_of(rb[2]) == 13:
+            w11.append(x[0])
+    outs = [x[0] for x in b.calls() if (b.callee_name(x[1]) or '').endswith('from_octets')]
+    ctx.need(w14 and outs, "16-bit tails written in UnresolvedAddress::resolve")
+    for s_ in w14:
+        pre = b.reachable(cut_blocks=set(w11))
+        post = b.reachable(start=s_, cut_blocks=set(w11))
+        if s_ in pre and any(o in post for o in outs):
+            ctx.bad("UnresolvedAddress::resolve|16-bit-iid-without-filler", "UnresolvedAddress::resolve rebuilds an address from a 16-bit value (octets 14..16) without writing the 00ff:fe00 filler into "
+                    "octets 11..13: fe80::ff:fe00:XXXX, which the compressor sends in the 16-bit form, comes out as fe80::XXXX", body=b, bb=s_)
+        else:
+            ctx.ok(('resolve', '16-bit iid', s_), sample=dict(writes='bytes[14..]', with_filler='bytes[11..13] = ff fe'))
